@@ -443,11 +443,11 @@ class MementoFunction(MementoFunctionBase):
                             [rule.describe() for rule in changed_rules],
                         )
                     )
-                else:
-                    if self._calculated_version is None:
-                        self._calculated_version = entry.version
-                        self._update_fn_reference()
+                elif self._calculated_version is not None:
                     return
+                # Otherwise this instance (e.g. an unregistered wrapper of a registered
+                # function) has not evaluated its hash rules yet, so it cannot vouch that
+                # nothing changed: compute its own version below.
 
         # Otherwise, it needs to be calculated based on code hash and dependencies
         version = self._recompute_version()
